@@ -209,7 +209,8 @@ def run(ctx) -> None:
         for gen, which in (("new", "new"), ("old", "old")):
             cat = cw.make(base / f"src_{gen}", which)
             rnd = yaw.Catalog(aux / "rnd", max_workers=1)
-            (cf,) = yaw.autocorrelate(cw.config_for("A"), cat, rnd, count_rr=False, max_workers=1)
+            unk = yaw.Catalog(aux / "refaux", max_workers=1)
+            (cf,) = yaw.crosscorrelate(cw.config_for("A"), cat, unk, ref_rand=rnd, unk_rand=rnd, max_workers=1)   # dd, dr, rd, rr
             cf.to_file(inputs / f"cf_{gen}.hdf")
             cf.sample().to_files(inputs / f"cd_{gen}")
             gens[gen] = cf
